@@ -91,6 +91,8 @@ def cases(tier, seed):
         yield {'kind': 'detect', 'seed': seed, 'idx': i}
     for i in range({'quick': 12, 'thorough': 600}[tier]):
         yield {'kind': 'detached', 'seed': seed, 'idx': i}
+    if tier == 'thorough':
+        yield {'kind': 'suite'}      # the repository's own tests as a further workload, run under this check's monitors
 
 _state = {}
 
@@ -209,6 +211,9 @@ def _face_dofs(N, ax, side, flip=None):
 
 def run_case(rec, case):
     _state['case'] = case
+    if case['kind'] == 'suite':
+        from verif.suite import run_suite
+        rec.case(case, nontrivial=True); run_suite(rec, 'c14', case); return
     {'joins': _joins, 'split': _split, 'detect': _detect, 'detached': _detached}[case['kind']](rec, case)
 
 def _joins(rec, case):
